@@ -1,6 +1,7 @@
 package main
 
 import (
+	"encoding/json"
 	"flag"
 	"fmt"
 	"os"
@@ -33,6 +34,7 @@ func main() {
 	ctlDir := flag.String("controls", "/verif/checker/testdata/controls", "positive-control package directory")
 	dump := flag.String("dump", "", "dump SSA with terms for function (name or substring)")
 	list := flag.Bool("list", false, "list functions")
+	auxFile := flag.String("aux", "", "JSON written by thorough.sh (mutant replay, compiler bounds-check list, windows build)")
 	flag.Parse()
 
 	start := time.Now()
@@ -107,6 +109,9 @@ func main() {
 				}
 			}()
 			p.Run(c, r, *tier)
+			if *auxFile != "" {
+				applyAux(c, r, *auxFile)
+			}
 			if len(p.Controls) > 0 {
 				if ctl == nil {
 					var err error
@@ -163,4 +168,106 @@ func blockIdx(bs []*ssa.BasicBlock) []int {
 		out = append(out, b.Index)
 	}
 	return out
+}
+
+type auxData struct {
+	Mutants        []map[string]interface{} `json:"mutants"`
+	MutantsKilled  int                      `json:"mutants_killed"`
+	MutantsTotal   int                      `json:"mutants_total"`
+	MutantsSkipped int                      `json:"mutants_skipped"`
+	MutantsMissed  []string                 `json:"mutants_missed"`
+	BceSites       []string                 `json:"bce_sites"`
+	WindowsBuildOK bool                     `json:"windows_build_ok"`
+}
+
+// applyAux merges the thorough-tier results: a seeded mutant of this property
+// that is no longer caught means the rules went inert (failure); every bounds
+// check the compiler could not prove inside an NP-scoped function must be an
+// NP obligation (guards the enumerator against a missed SSA form).
+func applyAux(c *Ctx, r *Report, path string) {
+	b, err := os.ReadFile(path)
+	if err != nil {
+		r.Fatalf("thorough: cannot read %s: %v", path, err)
+		return
+	}
+	var a auxData
+	if err := json.Unmarshal(b, &a); err != nil {
+		r.Fatalf("thorough: bad aux file: %v", err)
+		return
+	}
+	r.Extra["mutants_killed"] = a.MutantsKilled
+	r.Extra["mutants_total"] = a.MutantsTotal
+	r.Extra["mutants_skipped"] = a.MutantsSkipped
+	r.Extra["mutants"] = a.Mutants
+	r.Extra["windows_build_ok"] = a.WindowsBuildOK
+	if len(a.MutantsMissed) > 0 {
+		r.Fatalf("thorough: seeded mutant(s) of this property are no longer detected: %s (the rules went inert)", strings.Join(a.MutantsMissed, ", "))
+	}
+	if !a.WindowsBuildOK {
+		r.Notef("thorough: GOOS=windows build of /repo failed (no property verdict depends on it)")
+	}
+	// BCE cross-check
+	npPos := map[string]bool{}
+	npFuncs := map[string]bool{}
+	hasNP := false
+	for _, o := range r.Obs {
+		if o.Rule == "NP" {
+			hasNP = true
+			npFuncs[o.Func] = true
+			f, l, _ := posKey(o.Pos)
+			npPos[fmt.Sprintf("%s:%d", f, l)] = true
+		}
+	}
+	if !hasNP {
+		return
+	}
+	if len(a.BceSites) == 0 {
+		r.Notef("thorough: compiler bounds-check list empty — cross-check not run")
+		r.Extra["bce_crosscheck"] = "not run"
+		return
+	}
+	// map file:line → function of the package
+	type span struct {
+		file       string
+		start, end int
+		name       string
+	}
+	var spans []span
+	for _, fn := range c.Funcs {
+		if fn.Syntax() == nil {
+			continue
+		}
+		ps, pe := c.Fset.Position(fn.Syntax().Pos()), c.Fset.Position(fn.Syntax().End())
+		spans = append(spans, span{filepath.Base(ps.Filename), ps.Line, pe.Line, c.fname(fn)})
+	}
+	checked, missing := 0, 0
+	var miss []string
+	for _, s := range a.BceSites {
+		parts := strings.SplitN(s, ":", 4)
+		if len(parts) < 3 {
+			continue
+		}
+		file := filepath.Base(parts[0])
+		line, _ := strconv.Atoi(parts[1])
+		// innermost enclosing function
+		best := span{}
+		for _, sp := range spans {
+			if sp.file == file && sp.start <= line && line <= sp.end && (best.name == "" || sp.end-sp.start < best.end-best.start) {
+				best = sp
+			}
+		}
+		if best.name == "" || !npFuncs[best.name] {
+			continue
+		}
+		checked++
+		if !npPos[fmt.Sprintf("%s:%d", file, line)] {
+			missing++
+			miss = append(miss, fmt.Sprintf("%s:%d in %s", file, line, best.name))
+		}
+	}
+	r.Extra["bce_sites_in_scope"] = checked
+	r.Extra["bce_sites_without_obligation"] = miss
+	if missing > 0 {
+		r.Fatalf("thorough: %d bounds check(s) the compiler cannot prove lie in NP-scoped functions but are not NP obligations (enumerator gap): %s", missing, strings.Join(miss, "; "))
+	}
 }
